@@ -47,8 +47,8 @@ func VerifFactsC07() map[string]int64 {
 	}
 	m["unpacked_minCompressVersion"] = minV
 	r := &Repository{cfg: restic.Config{Version: 2}}
-	out, err := r.compressUnpacked(nil)
-	if err == nil && len(out) > 0 {
+	out, err := r.compressUnpacked(probe)
+	if err == nil && len(out) > 0 && !bytes.Equal(out, probe) {
 		m["unpacked_versionByte"] = int64(out[0])
 	} else {
 		m["unpacked_versionByte"] = -1
